@@ -223,6 +223,53 @@ func runC17(c *Ctx) {
 			}
 		}
 	}
+	// large tables: many columns times many short rows, so that the number of cells the
+	// transformer has to add (or drop) in one table crosses every power of two up to 2^20
+	// (2^22 in the thorough tier): a budget, a counter or a buffer sized for ordinary tables
+	{
+		type dim struct{ cols, rows int }
+		dims := []dim{{8, 3000}, {64, 1100}, {256, 300}, {1024, 40}, {1024, 140}, {1024, 520}, {1024, 1030}, {2048, 260}, {3000, 100}}
+		if !c.Quick() {
+			dims = append(dims, dim{1024, 2100}, dim{1024, 4100}, dim{4096, 1030}, dim{16, 70000})
+		}
+		for di, dm := range dims {
+			for pat := 0; pat < 3; pat++ {
+				var b strings.Builder
+				b.WriteString(strings.Repeat("|h", dm.cols) + "|\n" + strings.Repeat("|-", dm.cols) + "|\n")
+				for r := 0; r < dm.rows; r++ {
+					switch {
+					case pat == 0 || (pat == 1 && r%3 == 0):
+						b.WriteString("|x|\n")
+					case pat == 1 && r%3 == 1:
+						b.WriteString(strings.Repeat("|y", dm.cols) + "|\n")
+					case pat == 1:
+						b.WriteString(strings.Repeat("|z", dm.cols+3) + "|\n")
+					default:
+						b.WriteString("|" + strings.Repeat("w|", 1+r%7) + "\n")
+					}
+				}
+				cf := cfgs[(di+pat)%len(cfgs)]
+				out, e, p := convertSafe(cf.Build(), []byte(b.String()))
+				if e != "" || p != "" {
+					continue
+				}
+				in := map[string]interface{}{"config": cf.Name(), "columns": dm.cols, "rows": dm.rows, "row_pattern": []string{"one cell", "one cell / full / three too many", "one to seven cells"}[pat], "source": "|h (x columns)|, |- (x columns)|, then the rows of the pattern"}
+				parts := bytes.Split(out, []byte("<tr>"))
+				if len(parts) != dm.rows+2 || bytes.Count(out, []byte("<table>")) != 1 {
+					c.Violate("table-shape", in, fmt.Sprintf("%d rows and %d tables in the output, expected %d and 1", len(parts)-1, bytes.Count(out, []byte("<table>")), dm.rows+1), "table-shape")
+					continue
+				}
+				for ri, part := range parts[1:] {
+					n := bytes.Count(part, []byte("<td")) + bytes.Count(part, []byte("<th"))
+					if n != dm.cols {
+						c.Violate("table-shape", in, fmt.Sprintf("row %d (0 = header) has %d cells, the header %d", ri, n, dm.cols), "table-shape")
+						break
+					}
+				}
+				c.Count("large-tables", fmt.Sprintf("%d/%d/%d", dm.cols, dm.rows, pat), true)
+			}
+		}
+	}
 	lawSweep(c, cfgs, items, "table-shape", func(d []byte) bool { return true }, func(m mdT, d []byte) (string, bool) {
 		out, e, p := convertSafe(m.md, d)
 		if e != "" || p != "" {
